@@ -246,6 +246,10 @@ def compare(case, io, mo):
             return None
         return 'the model front end rejects a source text that the implementation compiles'
     if 'rejected' in io:
+        if io['rejected'] == 'CompilerError' and 'too large for Python' in (io.get('msg') or ''):
+            # the generated body needs more statically nested blocks than CPython compiles (D13): the compiler says so instead of
+            # emitting unloadable code.  That verdict is the subject of C11 (model: Comp/Limits.v); such a program has no answers to compare.
+            return None
         return 'the compiler rejected a generated program: %s %s' % (io['rejected'], io.get('msg'))
     views = model_views(mo)
     idx = compared_queries(case, io)
@@ -346,6 +350,8 @@ def stats(cases, obs):
         for x in cs:
             d['constructs'][x] = d['constructs'].get(x, 0) + 1
         if not isinstance(o, dict) or 'queries' not in o:
+            if isinstance(o, dict) and 'too large for Python' in (o.get('msg') or ''):
+                d['programs_rejected_as_too_large_for_python'] = d.get('programs_rejected_as_too_large_for_python', 0) + 1
             continue
         for iq in o['queries']:
             d['queries'] += 1
